@@ -152,6 +152,8 @@ def forms_case(fa, cid, g, ir, rnd):
     seed = rnd.randint(0, 2 ** 31)
     named = [n for n in g.defs if n != ir.get("full")]
     split = set(rnd.sample(named, rnd.randint(1, len(named)))) if named else set()
+    if rnd.random() < 0.6:
+        split |= {n for n in named if n.rsplit(".", 1)[-1].startswith("Ov")}      # the records of an overlapping union go by name together
     forms = [("raw", raw), ("parsed", parsed)]
     c["split"] = sorted(split)
     if split:
@@ -221,6 +223,8 @@ def run_c12(ctx, fa):
         mode = rnd.random()
         g = gen.Gen(rnd, logical=False, max_depth=rnd.choice([2, 2, 3]), big=False, recursive=False, ns=mode < 0.7)
         g.json_safe = True
+        if rnd.random() < 0.15:
+            g.overlap_bias = 0.6
         if mode < 0.7:
             g.pick_ns = lambda enclosing, _g=g: _g.r.choice(["a", "a", "a.b", "x.y"]) if _g.r.random() < 0.5 or not enclosing else enclosing
         ir = g.schema(top=rnd.choice(["record"] * 9 + ["union", "array"]))
